@@ -14,8 +14,13 @@ files = {}
 for l in open(os.path.join(V, 'properties.jsonl')):
     d = json.loads(l)
     for f in d['anchors']['files']: files.setdefault(f, []).append(d['id'])
-known = ''.join(open(p).read() for p in glob.glob(os.path.join(V, 'harness', 'gen_*.py')) if not p.endswith('gen_frozen.py')) \
-        + ''.join(open(p).read() for p in glob.glob(os.path.join(V, 'harness', 'p_c*.py'))) + open(os.path.join(V, 'tools', 'py2coq.py')).read()
+# "referred to" = named as a whole word in a generator / assertion module (harness/gen_*.py, tools/py2coq.py).  A mention in a p_c*.py
+# module (which only *runs* the function) does not pin its body: seeded/C20_m5 changed check_for_duplicate_table_forms unnoticed
+# because p_c20.py named it in a comment.
+import re
+known_text = ''.join(open(p).read() for p in glob.glob(os.path.join(V, 'harness', 'gen_*.py')) if not p.endswith('gen_frozen.py')) \
+        + open(os.path.join(V, 'tools', 'py2coq.py')).read()
+known = set(re.findall(r'[A-Za-z_][A-Za-z_0-9]*', known_text))
 out = {}
 for f in sorted(files):
     p = os.path.join(repo, f)
